@@ -58,10 +58,13 @@ def unchecked_utf8(ctx, run, rule, cone, floor=None):
                 a = assume.get(key)
                 if a is None:
                     from report import canon_desc
-                    cd = canon_desc(run.facts, p, desc)
+                    import re as _re
+                    # the slice end may be written `self.idx` or a local holding it
+                    flat = lambda x: _re.sub(r'\*?\$\.idx', '$', x or '')
+                    cd = flat(canon_desc(run.facts, p, desc))
                     for k2, e in assume.items():
                         kf = k2.split('|')
-                        if len(kf) >= 4 and kf[1] == p and e.get('cdesc') == cd and k2 not in used:
+                        if len(kf) >= 4 and kf[1] == p and flat(e.get('cdesc')) == cd and k2 not in used:
                             a = e
                             used.add(k2)
                             break
